@@ -9,7 +9,9 @@ COQ_PRELUDE = ''
 PER_FILE = 500
 CASE_TIMEOUT = 10
 RULE = ('timestamps are whole hours from 2020-01-01 (index points on a 6-hour grid with gaps, bounds on a 3-hour grid so that they fall '
-        'before / on / between / after index points, half-day offsets included). slice cases: one Series or 1-2 column DataFrame, lb and ub '
+        'before / on / between / after index points, half-day offsets included); a second stream works in microseconds (day = 86400e6): '
+        'time-of-day bounds with and without a microsecond part, rows 300 ms / 1 us before, at, and 1 us / 250 ms / 999999 us / 1 s after each '
+        'bound on several days, single and wrap-around windows, all four brackets, Series and DataFrame. slice cases: one Series or 1-2 column DataFrame, lb and ub '
         'each missing, a datetime or a time of day; values finite, NaN or +-inf (carried through) (all combinations, windows with start later than end included), every bracket string '
         '"[]" "[)" "(]" "()" plus the o/c spellings, the default and malformed strings; one fixed 7-point series is swept over all 21 x 21 '
         'bound positions x 4 brackets. stitch cases: 1-4 series, increasing / non-strict / decreasing bound lists given as ub, lb or both, '
@@ -33,6 +35,10 @@ EXHAUSTIVE = {'quick': False, 'thorough': False}
 
 E0 = datetime.datetime(2020, 1, 1)
 DAY = 24
+DAY_US = 86400 * 10 ** 6     # cases with unit='us': timestamps and times of day in microseconds
+UNIT = 'h'                   # unit of the case being run (set by impl)
+def day_of(case):
+    return DAY_US if case.get('unit') == 'us' else DAY
 BRACKETS = ['[]', '[)', '(]', '()']
 PINF, NINF = 10 ** 9, -10 ** 9      # +inf / -inf cells: values are carried, never computed, so the model sees two reserved integers
 
@@ -57,7 +63,7 @@ def _oc(case):
 def coq_case(case):
     k = case['kind']
     if k == 'slice':
-        return '(%d, %s, %s, %s, (%s : frame), "%s")' % (DAY, _oc(case), _bound(case['lb']), _bound(case['ub']), _frame(case['ts'], case['rows']), case['form'])
+        return '(%d, %s, %s, %s, (%s : frame), "%s")' % (day_of(case), _oc(case), _bound(case['lb']), _bound(case['ub']), _frame(case['ts'], case['rows']), case['form'])
     ss = '([' + '; '.join(_series(s) for s in case['ss']) + '] : list ts)'
     if k == 'stitch':
         b = {'ub': lambda: 'UbList ' + _zl(case['ubs']), 'lb': lambda: 'LbList ' + _zl(case['lbs']),
@@ -72,14 +78,21 @@ def impl_setup():
     from pyg_base import df_slice, df_unslice
 
 def T(h):
-    return E0 + datetime.timedelta(hours=h)
+    return E0 + (datetime.timedelta(microseconds=h) if UNIT == 'us' else datetime.timedelta(hours=h))
 def H(x):
-    s = (x - E0).total_seconds()
+    d = x - E0
+    if UNIT == 'us':
+        return (d.days * 86400 + d.seconds) * 10 ** 6 + d.microseconds
+    s = d.total_seconds()
     return int(s // 3600) if s % 3600 == 0 else 'frac:%r' % s
 
 def py_bound(b):
     if b is None: return None
-    return T(b[1]) if b[0] == 'at' else datetime.time(hour=b[1])
+    if b[0] == 'at': return T(b[1])
+    if UNIT == 'us':
+        q, us = divmod(b[1], 10 ** 6)
+        return datetime.time(q // 3600, q // 60 % 60, q % 60, us)
+    return datetime.time(hour=b[1])
 
 def fl(v):
     return np.nan if v is None else np.inf if v == PINF else -np.inf if v == NINF else float(v)
@@ -116,11 +129,11 @@ def in_window(t, lb, ub, oc):
     l, u = closed(oc[0]), closed(oc[1])
     def lo(b):
         if b is None: return True
-        x = t if b[0] == 'at' else t % DAY
+        x = t if b[0] == 'at' else t % (DAY_US if UNIT == 'us' else DAY)
         return b[1] <= x if l else b[1] < x
     def hi(b):
         if b is None: return True
-        x = t if b[0] == 'at' else t % DAY
+        x = t if b[0] == 'at' else t % (DAY_US if UNIT == 'us' else DAY)
         return x <= b[1] if u else x < b[1]
     if lb is not None and ub is not None and lb[0] == 'tod' and ub[0] == 'tod' and lb[1] > ub[1]:
         return lo(lb) or hi(ub)
@@ -169,6 +182,8 @@ def call_stitch(case, ss_objs, lbs, ubs):
     return df_slice(ss_objs, n=case['n'], **kw)
 
 def impl(case):
+    global UNIT
+    UNIT = case.get('unit', 'h')
     k = case['kind']
     viol = None
     if k == 'slice':
@@ -287,7 +302,7 @@ def shape(case):
         oc = case.get('oc')
         ocs = 'default' if oc is None else (oc if oc in BRACKETS else ('alias' if len(oc) == 2 and all(c in 'oOcC()[]' for c in oc) else 'malformed'))
         wrap = ':wrap' if (case['lb'] and case['ub'] and case['lb'][0] == 'tod' and case['ub'][0] == 'tod' and case['lb'][1] > case['ub'][1]) else ''
-        return 'slice:%s:%s:%s%s' % (f(case['lb']), f(case['ub']), ocs, wrap)
+        return 'slice:%s:%s:%s%s%s' % (f(case['lb']), f(case['ub']), ocs, wrap, ':us' if case.get('unit') == 'us' else '')
     if case['kind'] == 'stitch':
         l = case['lbs'] if case['mode'] == 'lb' else case['ubs']
         return 'stitch:%s:%s:n%d' % (case['mode'], 'inc' if _dir(l) else 'dec', min(case['n'], 3))
@@ -350,6 +365,32 @@ def gen_cases(rng, tier):
         lb, ub = rand_bound(rng, ts), rand_bound(rng, ts)
         tup = rng.random() < 0.05 and ub is not None
         cases.append(slice_case(ts, k, form, lb, ub, oc, vals, tuple=tup))
+    # E. sub-second times of day (unit = microseconds): rows 300 ms / 1 us before, at, and 1 us / 250 ms / just under 1 s after
+    #    each bound's time of day, bounds with and without microseconds, single and wrap-around windows, all four brackets
+    S = 10 ** 6
+    tods = [10 * 3600 * S, 10 * 3600 * S + 250000, 0, 1, DAY_US - 1, 18 * 3600 * S + 999999, 6 * 3600 * S + 500000, 12 * 3600 * S]
+    deltas = [-300000, -1, 0, 1, 250000, 999999, S]
+    def us_rows(bounds, days, ds):
+        ts = sorted(set(d * DAY_US + b + x for d in days for b in bounds for x in ds))
+        return ts
+    pairs = [(tods[0], tods[5]), (tods[1], tods[7]), (tods[2], tods[0]), (tods[3], tods[4]), (tods[6], tods[1]), (tods[0], tods[1])]
+    t = 0
+    for a, b in pairs:
+        a, b = min(a, b), max(a, b)
+        ts = us_rows([a, b], [0, 1, 3], deltas)
+        for lb, ub in ((a, b), (b, a), (None, b), (None, a), (a, None), (b, None), (a, a)):
+            for oc in BRACKETS:
+                t += 1
+                cases.append(slice_case(ts, 1 + t % 2, 'S' if t % 2 else 'D', None if lb is None else ['tod', lb], None if ub is None else ['tod', ub], oc, unit='us'))
+    for _ in range(600 if quick else 10000):
+        a, b = rng.choice(tods), rng.choice(tods)
+        if rng.random() < 0.3: a = rng.randrange(DAY_US)
+        if rng.random() < 0.3: b = a + rng.choice([-1, 1, 250000, -250000, 0]) if 250000 < a < DAY_US - 250000 else b
+        ts = us_rows([a, b], rng.sample([0, 1, 2, 5], rng.choice([1, 2])), rng.sample(deltas, rng.choice([2, 3, 5])) + [0])
+        form = rng.choice(['S', 'D']); k = 1 if form == 'S' else rng.choice([1, 2])
+        lb = rng.choice([None, ['tod', a], ['tod', a], ['at', rng.choice(ts) + rng.choice([0, 1, -1])]])
+        ub = rng.choice([None, ['tod', b], ['tod', b], ['at', rng.choice(ts) + rng.choice([0, 1, -1])]])
+        cases.append(slice_case(ts, k, form, lb, ub, rng.choice(BRACKETS + [None]), unit='us'))
     # C. stitching
     for _ in range(1500 if quick else 25000):
         m = rng.choice([1, 2, 2, 3, 3, 4])
